@@ -99,7 +99,92 @@ pub mod thread {
     pub use ::std::thread::*;
 
     pub use ::shuttle::thread::{current, park, sleep, spawn, yield_now, JoinHandle, Thread, ThreadId};
+
+    // ---- scoped threads on top of shuttle's threads ----------------------------------------------
+    // (std's `scope` would start OS threads outside the scheduler; the lifetimes are erased the way
+    // scoped-thread libraries do it: every thread is joined before `scope` returns)
+
+    type Slot<T> = ::std::sync::Arc<::std::sync::Mutex<Option<::std::thread::Result<T>>>>;
+    type Handle = ::std::sync::Arc<::std::sync::Mutex<Option<JoinHandle<()>>>>;
+
+    pub struct Scope<'scope, 'env: 'scope> {
+        handles: ::std::sync::Mutex<Vec<(Handle, Box<dyn Fn() -> bool + Send + 'static>)>>,
+        _scope: ::std::marker::PhantomData<&'scope mut &'scope ()>,
+        _env: ::std::marker::PhantomData<&'env mut &'env ()>,
+    }
+
+    pub struct ScopedJoinHandle<'scope, T> {
+        slot: Slot<T>,
+        handle: Handle,
+        _scope: ::std::marker::PhantomData<&'scope ()>,
+    }
+
+    impl<'scope, T> ScopedJoinHandle<'scope, T> {
+        pub fn join(self) -> ::std::thread::Result<T> {
+            let h = self.handle.lock().unwrap().take();
+            if let Some(h) = h {
+                let _ = h.join();
+            }
+            let r = self.slot.lock().unwrap().take();
+            r.expect("scoped thread finished without a result")
+        }
+        pub fn is_finished(&self) -> bool {
+            self.slot.lock().unwrap().is_some()
+        }
+    }
+
+    impl<'scope, 'env> Scope<'scope, 'env> {
+        pub fn spawn<F, T>(&'scope self, f: F) -> ScopedJoinHandle<'scope, T>
+        where
+            F: FnOnce() -> T + Send + 'scope,
+            T: Send + 'scope,
+        {
+            let slot: Slot<T> = ::std::sync::Arc::new(::std::sync::Mutex::new(None));
+            let (slot2, slot3) = (slot.clone(), slot.clone());
+            let body: Box<dyn FnOnce() + Send + 'scope> = Box::new(move || {
+                let r = ::std::panic::catch_unwind(::std::panic::AssertUnwindSafe(f));
+                *slot2.lock().unwrap() = Some(r);
+            });
+            // a panic whose result nobody fetched with `join` makes `scope` panic
+            let unfetched_panic: Box<dyn Fn() -> bool + Send + 'scope> = Box::new(move || matches!(&*slot3.lock().unwrap(), Some(Err(_))));
+            let unfetched_panic: Box<dyn Fn() -> bool + Send + 'static> = unsafe { ::std::mem::transmute(unfetched_panic) };
+            // Safety: `scope` joins every thread it has spawned before it returns, so nothing
+            // borrowed for 'scope is used after the end of 'scope.
+            let body: Box<dyn FnOnce() + Send + 'static> = unsafe { ::std::mem::transmute(body) };
+            let handle: Handle = ::std::sync::Arc::new(::std::sync::Mutex::new(Some(spawn(body))));
+            self.handles.lock().unwrap().push((handle.clone(), unfetched_panic));
+            ScopedJoinHandle { slot, handle, _scope: ::std::marker::PhantomData }
+        }
+    }
+
+    pub fn scope<'env, F, T>(f: F) -> T
+    where
+        F: for<'scope> FnOnce(&'scope Scope<'scope, 'env>) -> T,
+    {
+        let s = Scope {
+            handles: ::std::sync::Mutex::new(vec![]),
+            _scope: ::std::marker::PhantomData,
+            _env: ::std::marker::PhantomData,
+        };
+        let r = ::std::panic::catch_unwind(::std::panic::AssertUnwindSafe(|| f(&s)));
+        let mut unjoined_panic = false;
+        loop {
+            let next = s.handles.lock().unwrap().pop();
+            let Some((h, unfetched_panic)) = next else { break };
+            let h = h.lock().unwrap().take();
+            if let Some(h) = h {
+                let _ = h.join();
+            }
+            unjoined_panic |= unfetched_panic();
+        }
+        match r {
+            Err(e) => ::std::panic::resume_unwind(e),
+            Ok(_) if unjoined_panic => panic!("a scoped thread panicked"),
+            Ok(v) => v,
+        }
+    }
 }
+
 
 /// `std::cell` with the interior-mutability types wrapped: every access is announced to a function
 /// the harness installs (a scheduling point), so that cells which the crate shares between threads
